@@ -2719,6 +2719,19 @@ func (p *Posix) PutObject(ctx context.Context, po s3response.PutObjectInput) (s3
 			return s3response.PutObjectOutput{}, s3err.GetAPIError(s3err.ErrDirectoryObjectContainsData)
 		}
 
+		// the request authorization and payload checks are only
+		// reported once the body reader is consumed, so read it
+		// to the end before creating anything
+		if po.Body != nil {
+			n, err := io.Copy(io.Discard, po.Body)
+			if err != nil {
+				return s3response.PutObjectOutput{}, fmt.Errorf("read object data: %w", err)
+			}
+			if n != 0 {
+				return s3response.PutObjectOutput{}, s3err.GetAPIError(s3err.ErrDirectoryObjectContainsData)
+			}
+		}
+
 		err = backend.MkdirAll(name, uid, gid, doChown, p.newDirPerm)
 		if err != nil {
 			if errors.Is(err, syscall.EDQUOT) {
